@@ -1480,7 +1480,9 @@ class FnTranslator:
             a = split_macro_args(toks, self.u.rel)
             # receiver: `self`, or a local bound to a declared-and-dropped external such as `self.validator()` (its value
             # is `()`: whichever validator it is, its policy filter is the external `policy_filter_err`)
-            via_local = a[0][0] == "path" and len(a[0][1]) == 1 and env.get(a[0][1][0]) == UNIT
+            via_local = a[0][0] == "path" and len(a[0][1]) == 1 and env.get(a[0][1][0]) in (UNIT, ("opaque", "Validator"))
+            # (b06, round 9) ... or a parameter of the opaque type `Validator` (`Arc<dyn Validator>`): the macro only reads
+            # its policy filter, which is the same external `policy_filter_err`
             if a[0] != ("path", ["self"]) and not via_local: raise RsError("policy_err! on something else than self")
             if not (self.trait_self or "self" in env): raise RsError("policy_err! without self")
             tag, t = self.expr(a[1], env, pre, ("str",))
